@@ -92,11 +92,21 @@ def run(ctx):
                           "a detector STOP can leave the trigger set")
                 # the switch scrutinee is the run() result
                 okv = False
-                for s_ in sw:
-                    c = chk.nodes[chk.strip(chk.nodes[s_]["c"])]
+                scrut = [chk.nodes[s_]["c"] for s_ in sw]
+                if not sw:
+                    # if-chain form: the expression compared with PluginRet::STOP
+                    for b_ in chk.all("bin"):
+                        nb = chk.nodes[b_]
+                        if nb.get("op") in ("==", "!="):
+                            for x_, y_ in ((nb["l"], nb["r"]), (nb["r"], nb["l"])):
+                                cy = chk.nodes[chk.strip(y_)]
+                                if cy["k"] == "ref" and cy.get("dk") == "enumconst" and cy["name"] == "STOP":
+                                    scrut.append(x_)
+                for sc_ in scrut:
+                    c = chk.nodes[chk.strip(sc_)]
                     if c["k"] == "ref":
                         okv = okv or is_run_result(c["name"])
-                    elif chk.strip(chk.nodes[s_]["c"]) in runs:
+                    elif chk.strip(sc_) in runs:
                         okv = True
                 ctx.check(okv, "check:switch-on-run-result", "dataflow", chk.loc(),
                           "the switch scrutinee is the value returned by run()",
@@ -271,17 +281,24 @@ def run(ctx):
         # iteration is forward over [start, end)
         s = chain.nodes[L["stmt"]]
         it = " ".join(chain.text(s[k]) for k in ("c", "inc") if k in s)
-        ctx.check("++action_chain_start" in it and "action_chain_end" in it and "--" not in it,
-                  "chain:forward-order", "loop-shape", chain.loc(L["stmt"]),
+        # the loop walks [first iterator parameter, second iterator parameter) upwards, whatever the parameters are called
+        itp = [p_["name"] for p_ in chain.params if "iterator" in (p_.get("type") or "") or "__normal_iterator" in (p_.get("type") or "")]
+        fwd = len(itp) >= 2 and ("++" + itp[0] in it or itp[0] + "++" in it) and itp[1] in it and "--" not in it
+        ctx.check(fwd, "chain:forward-order", "loop-shape", chain.loc(L["stmt"]),
                   "actions run in configured order from start to end", "loop header is: " + it)
         cb = case_blocks(chain)
         for nm in ("CONTINUE", "STOP", "ASYNC_PAUSED"):
             if nm not in cb:
                 ctx.violation("chain:case:" + nm, "switch_table", chain.loc(), "no case %s" % nm)
         sw = [i for i in chain.all("switch")]
-        ctx.check(len(sw) == 1 and chain.nodes[sw[0]].get("allenum"), "chain:switch-exhaustive", "switch_table",
-                  chain.loc(sw[0]) if sw else chain.loc(), "switch covers every PluginRet",
-                  "switch over the action result is not exhaustive")
+        if sw:
+            ctx.check(len(sw) == 1 and chain.nodes[sw[0]].get("allenum"), "chain:switch-exhaustive", "switch_table",
+                      chain.loc(sw[0]) if sw else chain.loc(), "switch covers every PluginRet",
+                      "switch over the action result is not exhaustive")
+        else:
+            # if / else-if chain: the three outcomes are tested (checked above); whatever is left falls out of the chain like today's
+            # switch without default does
+            ctx.ok("chain:switch-exhaustive", "switch_table", chain.loc(), "CONTINUE, STOP and ASYNC_PAUSED are each tested (if-chain form)")
         if all(nm in cb for nm in ("CONTINUE", "STOP", "ASYNC_PAUSED")):
             saves = field_writes(chain, "active_action_chain_state_")
             evs = {runs[0]: [("set", "ran")]}
